@@ -32,6 +32,12 @@ def _jsonable(x):
     return repr(x)
 
 
+def _eval_description(text):
+    """evaluate an input description produced by pyvc.verify.describe (for known-finding selectors)"""
+    from curtsies.formatstring import FmtStr, Chunk
+    return eval(text, {"FmtStr": FmtStr, "Chunk": Chunk, "slice": slice})
+
+
 class Obligation:
     __slots__ = ("id", "function", "kind", "solver", "result", "seconds", "detail")
 
@@ -83,6 +89,7 @@ class Check:
             try:
                 env = dict(inputs)
                 env["clause"] = clause
+                env["E"] = _eval_description
                 if eval(sel, {"__builtins__": __builtins__}, env):
                     return f
             except Exception:
